@@ -345,7 +345,7 @@ def r6(R, M):
         if meth == "items" and isinstance(holder, ast.For) and holder.iter is call and isinstance(holder.target, ast.Tuple) and len(holder.target.elts) == 2:
             k, u = [src(e) for e in holder.target.elts]
             stores = [st for st in ast.walk(holder) if isinstance(st, ast.Assign) and isinstance(st.targets[0], ast.Subscript)
-                      and any(isinstance(x, ast.Name) and x.id == u for x in ast.walk(st.value))]
+                      and any(isinstance(x, ast.Name) and x.id == u for x in ast.walk(pyfacts.resolved(fn, st.value, 2, keep=(k, u))))]
             R.shape(bool(stores), "C10.R6", TM, q, "the store of %s's lattice parameters inside the loop over self.phases.items()" % u)
             for st in stores:
                 n += 1
